@@ -308,6 +308,172 @@ fn dash_tokens(text: &str) -> (Vec<String>, Vec<char>) {
     (longs, shorts)
 }
 
+// ---------------------------------------------------------------------------------------------
+// second family: `any(..)` items - free-form items a user can pass - with help texts, alone and
+// as members of an adjacent block (`--exec CMD ;`), at the top level or inside a subcommand.
+// Every visible item with a help text is listed with it; hidden ones are not.
+// ---------------------------------------------------------------------------------------------
+
+pub struct AnyCase {
+    pub root: Level,
+    pub path: Vec<String>,
+    /// (help marker, hidden)
+    pub markers: Vec<(String, bool)>,
+}
+
+pub fn decode_any(bytes: &[u8]) -> AnyCase {
+    let mut u = Un::new(bytes);
+    let mut names = Names::new();
+    let mut markers: Vec<(String, bool)> = Vec::new();
+    let mut k = 0;
+    let mut mark = |hidden: bool, markers: &mut Vec<(String, bool)>| -> DocSpec {
+        k += 1;
+        let m = format!("Hlp{}", k);
+        markers.push((m.clone(), hidden));
+        DocSpec::plain(format!("about {} item", m))
+    };
+    let mut fields: Vec<Node> = Vec::new();
+    for _ in 0..u.below(3) {
+        let mut n = gen_named_leaf(&mut u, &mut names, NamedKind::Switch);
+        n.help = Some(mark(false, &mut markers));
+        fields.push(Node::Named(n));
+    }
+    // the block: a named lead, then any / positional members
+    if u.chance(200) {
+        let mut lead = gen_named_leaf(&mut u, &mut names, NamedKind::ReqFlag);
+        let block_hidden = u.chance(30);
+        if u.chance(200) {
+            lead.help = Some(mark(block_hidden, &mut markers));
+        }
+        let mut m = vec![Node::Named(lead)];
+        for i in 0..1 + u.below(2) {
+            if u.chance(170) {
+                let help = if u.chance(220) { Some(mark(block_hidden, &mut markers)) } else { None };
+                m.push(Node::Any(AnySpec {
+                    metavar: format!("ANY{}", i),
+                    prefixes: vec![format!("w{}", i)],
+                    anywhere: false,
+                    help,
+                }));
+            } else {
+                let help = if u.chance(200) { Some(mark(block_hidden, &mut markers)) } else { None };
+                m.push(Node::Pos(PosSpec {
+                    id: names.id(),
+                    metavar: format!("POS{}", i),
+                    ty: Ty::Str,
+                    help,
+                    strict: Strictness::Unrestricted,
+                }));
+            }
+        }
+        let g = Node::Adjacent(m);
+        let g = match u.below(3) {
+            0 => g,
+            1 => Node::Optional { n: g.b(), catch: false },
+            _ => Node::Many { n: g.b(), catch: false },
+        };
+        fields.push(if block_hidden { Node::Hide(g.b()) } else { g });
+    }
+    // a free-standing any item, with or without `anywhere`
+    if u.chance(160) {
+        let hidden = u.chance(40);
+        let a = Node::Any(AnySpec {
+            metavar: "FREE".into(),
+            prefixes: vec!["+".into()],
+            anywhere: u.bool(),
+            help: Some(mark(hidden, &mut markers)),
+        });
+        let a = Node::Optional { n: a.b(), catch: false };
+        fields.push(if hidden { Node::Hide(a.b()) } else { a });
+    }
+    if fields.is_empty() {
+        let mut n = gen_named_leaf(&mut u, &mut names, NamedKind::Switch);
+        n.help = Some(mark(false, &mut markers));
+        fields.push(Node::Named(n));
+    }
+    let inner = Level::simple(Node::Seq(fields));
+    if u.chance(90) {
+        let name = names.cmd(&mut u);
+        let root = Level::simple(Node::Seq(vec![Node::Cmd(Box::new(CmdSpec {
+            name: name.clone(),
+            shorts: Vec::new(),
+            longs: Vec::new(),
+            help: None,
+            adjacent: false,
+            level: inner,
+        }))]));
+        AnyCase { root, path: vec![name], markers }
+    } else {
+        AnyCase { root: inner, path: Vec::new(), markers }
+    }
+}
+
+pub fn check_any(bytes: &[u8], ctx: &mut Ctx) -> Verdict {
+    let case = decode_any(bytes);
+    let parser = match guarded(|| {
+        let p = build_level(&case.root);
+        p.check_invariants(false);
+        p
+    }) {
+        Ok(p) => p,
+        Err((at, msg)) => {
+            return Verdict::fail(
+                "generator/invariants",
+                format!("{}: check_invariants panicked at {}: {}", show_level(&case.root), at, msg),
+            )
+        }
+    };
+    let mut argv: Vec<Vec<u8>> = case.path.iter().map(|p| p.as_bytes().to_vec()).collect();
+    argv.push(b"--help".to_vec());
+    let out = run_cfg(&parser, &argv, &RunCfg::default());
+    ctx.eval(1);
+    ctx.class("family:any-items");
+    if case.markers.len() >= 3 {
+        ctx.nontrivial(fnv_str(&format!("{:?}", case.root)));
+    }
+    let text = match out {
+        Outcome::Stdout { text, .. } => text,
+        Outcome::Panic { at, msg } => return Verdict::fail(format!("panic@{}", at), msg),
+        other => {
+            return Verdict::fail(
+                "help-request-not-stdout",
+                format!("{} on {:?} -> {}", show_level(&case.root), show_argv(&argv), other.short()),
+            )
+        }
+    };
+    let body = without_usage(&text);
+    for (m, hidden) in &case.markers {
+        let n = count_marker(&body, m);
+        if *hidden && n > 0 {
+            return Verdict::fail(
+                "any-family/hidden-item-listed",
+                format!("{}: {} shows up in\n{}", show_level(&case.root), m, text),
+            );
+        }
+        if !*hidden && n != 1 {
+            return Verdict::fail(
+                if n == 0 { "any-family/item-with-help-not-listed" } else { "any-family/item-listed-twice" },
+                format!("{}: help text {} appears {} times in\n{}", show_level(&case.root), m, n, text),
+            );
+        }
+    }
+    Verdict::Pass
+}
+
+/// occurrences of `marker` not followed by another digit
+fn count_marker(hay: &str, marker: &str) -> usize {
+    let mut from = 0;
+    let mut n = 0;
+    while let Some(p) = hay[from..].find(marker) {
+        let end = from + p + marker.len();
+        if !hay[end..].chars().next().map_or(false, |c| c.is_ascii_digit()) {
+            n += 1;
+        }
+        from = end;
+    }
+    n
+}
+
 pub fn check_level(root: &Level, path: &[String], level: &Level, ctx: &mut Ctx) -> Verdict {
     let parser = build_level(root);
     let mut argv: Vec<Vec<u8>> = path.iter().map(|p| p.as_bytes().to_vec()).collect();
@@ -611,6 +777,10 @@ impl Prop for C12 {
          >=4 visible items; distinct by hash of (definition, path)."
     }
     fn check(&self, bytes: &[u8], ctx: &mut Ctx) -> Verdict {
+        // one case in sixteen belongs to the `any` family
+        if bytes.first().map_or(false, |b| b % 16 == 15) {
+            return check_any(&bytes[1..], ctx);
+        }
         let case = decode(bytes);
         if let Err((at, msg)) = guarded(|| build_level(&case.level).check_invariants(false)) {
             return Verdict::fail(
@@ -628,6 +798,15 @@ impl Prop for C12 {
         Verdict::Pass
     }
     fn describe(&self, bytes: &[u8]) -> Value {
+        if bytes.first().map_or(false, |b| b % 16 == 15) {
+            let c = decode_any(&bytes[1..]);
+            return json!({
+                "family": "any(..) items with help, alone and inside an adjacent block",
+                "definition": show_level(&c.root),
+                "level": c.path.join(" "),
+                "help markers (hidden?)": c.markers.iter().map(|(m, h)| format!("{}{}", m, if *h { " hidden" } else { "" })).collect::<Vec<_>>(),
+            });
+        }
         let case = decode(bytes);
         json!({
             "definition": show_level(&case.level),
